@@ -208,7 +208,14 @@ def explore_scenario(res, sc_json, built, driver, ops, plan, bound, allow=False,
     state = {"msg": None, "choices": None, "steps": 0, "outcomes": set()}
 
     def run_fn(ch):
-        msg, steps = ex.run(ch, ops, activate_first)
+        # the deadline is per execution (one schedule); the exploration as a whole is bounded by
+        # max_execs, never by wall-clock time
+        try:
+            with deadline(60):
+                msg, steps = ex.run(ch, ops, activate_first)
+        except Hang:
+            install_virtual_loop()
+            msg, steps = "hung: one execution did not finish within 60 s", 0
         state["steps"] += steps
         if msg and state["msg"] is None:
             # replay once more before trusting it
@@ -251,7 +258,7 @@ def _bucket(n):
 
 
 def _cat(msg):
-    for key in ("NONDETERMINISTIC", "still suspended", "still pending", "ready queue",
+    for key in ("hung", "NONDETERMINISTIC", "still suspended", "still pending", "ready queue",
                 "never awaited", "deadlock", "phase discipline", "nested send return",
                 "result", "trace", "stored state", "exception", "outcome kind", "dirty"):
         if key in msg:
@@ -408,11 +415,7 @@ def worker(block):
     scs, ms = scenarios(tier)
     bound = 2 if tier == "quick" else None
     for sc in scs[lo:hi]:
-        try:
-            with deadline(300):
-                run_one(res, sc, ms, tier, bound)
-        except Hang:
-            res.violation({"category": "hang"}, {"family": sc[0], "sc": repr(sc)}, "scenario hung")
+        run_one(res, sc, ms, tier, bound)
     return res
 
 
